@@ -52,6 +52,8 @@ def gen_fault_spec(rng):
             g["ops"].append(["shuffle_n", {"n": 1 + rng.randrange(2)}])
         if rng.random() < 0.3:
             g["ops"].append(["take", {"n_interactions": max(2, n - rng.randrange(n // 2 + 1))}])
+        if rng.random() < 0.2:
+            g["ops"].append(["batch", {"batch_size": 1 + rng.randrange(3)}])     # batched and unbatched environments in one experiment
         groups.append(g)
     learners = []
     for i in range(1 + rng.randrange(3)):
